@@ -53,12 +53,12 @@ def run(ctx):
     ctx.decides = ("who-may-call closure around ChangeGraph::add_change(s) / update_history / BatchApply / ChangeQueue::extend; in apply_changes_batch_log_patches the "
                    "accepting call ChangeBatch::push is dominated by the false edges of both has_actor_seq tests whose true edges return Err, queue.extend is after the loop, "
                    "BatchApply::push is fed from pop_topo_sorted_ready; ChangeBatch::push's insertion is dominated by its in-batch duplicate test; "
-                   "TransactionArgs is built only in transaction_args with seq = seq_for_actor(..)+1 and remove_actor_branch_from(actor, seq) on every path.")
+                   "TransactionArgs is built only in transaction_args with seq = seq_for_actor(..)+1; commit_impl removes the queued branch of the committed change's (actor, seq) on every path after update_history.")
     ctx.not_decided = "that has_actor_seq / seq_for_actor compute the right answer for every history; uniqueness across ChangeGraph::load (ChangeCollector) is not covered."
     ctx.rule("R3-callers", "callers of each function in the admission chain are a subset of the reviewed set")
     ctx.rule("R3-guard", "accepting a change is dominated by the false edge of each duplicate test; the true edge returns Err")
     ctx.rule("R3-order", "queue.extend is not inside the admission loop; BatchApply::push takes changes from pop_topo_sorted_ready")
-    ctx.rule("R3-local", "TransactionArgs{seq} has provenance ChangeGraph::seq_for_actor + 1 and the queued conflicting branch is removed with the same seq")
+    ctx.rule("R3-local", "TransactionArgs{seq} has provenance ChangeGraph::seq_for_actor + 1; the queued conflicting branch of the committed change's (actor, seq) is removed where the change enters the history (commit_impl)")
     f = ctx.facts()
     cg = callgraph.get(f)
     # ---- callers
@@ -173,27 +173,39 @@ def run(ctx):
         if "automerge::change_graph::ChangeGraph::seq_for_actor" in cs:
             ok = ok and ("u64", "1") in pv.consts   # seq_for_actor(..) + 1
         ctx.ob("R3-local", "transaction_args|seq provenance", ok, s["sp"], "seq derives from %s" % sorted(cs))
-        # remove_actor_branch_from dominates the construction and takes the same seq
-        rm = [(rb, t) for rb, t in tb.calls() if callee(t) == "automerge::change_queue::ChangeQueue::remove_actor_branch_from"]
-        okr = bool(rm) and any(tb.block_dominates(rb, bi) for rb, _ in rm)
-        same = False
-        for rb, t in rm:
-            a = t["args"][2]
-            pva = tb.provenance(a, through_calls=False)
-            if pva.callees() == pv.callees() and pva.callees():
-                same = True
-        # ... and for the very actor the transaction will commit as (actors[actor_index])
-        ai = util.op_place(rv["o"][rv["fields"].index("actor_index")])
-        same_actor = False
-        for rb, t in rm:
-            pva = tb.provenance(t["args"][1], through_calls=True)
-            if ai is not None and tb.origin(ai["l"], tuple(ai["p"]))[0] in pva.locals:
-                same_actor = True
-        ctx.ob("R3-local", "transaction_args|remove_actor_branch_from targets the committing actor", same_actor, s["sp"],
-               "the actor passed to remove_actor_branch_from is actors[actor_index] of the TransactionArgs being built" if same_actor else
-               "the actor whose queued branch is removed does not derive from the actor_index the transaction commits as")
-        ctx.ob("R3-local", "transaction_args|remove_actor_branch_from(actor, seq) dominates", okr and same, s["sp"],
-               "queued conflicting branch removed before the sequence number is claimed" if okr and same else "remove_actor_branch_from missing on some path or called with a different seq")
+
+    # the committed change claims its (actor, seq): the queued conflicting branch is removed where the change enters the history
+    # (not where the transaction opens: a transaction that is rolled back must leave the queue alone, C28)
+    CI = "automerge::transaction::inner::TransactionInner::commit_impl"
+    cb = ctx.body(CI)
+    ctx.analysed_fns.add(CI)
+    ups = [(bi, t) for bi, t in cb.calls() if callee(t) == "automerge::automerge::Automerge::update_history"]
+    ctx.floor("update_history calls in commit_impl", len(ups), 1)
+    rm = [(rb, t) for rb, t in cb.calls() if callee(t) == "automerge::change_queue::ChangeQueue::remove_actor_branch_from"]
+    for k, (bi, t) in util.ordinal_keys(ups, lambda it: "commit_impl|update_history"):
+        ch = cb.operand_origin(t["args"][1])
+        reach = cb.reachable(start=t.get("target"), removed_blocks={rb for rb, _ in rm}) if t.get("target") is not None else set()
+        okr = bool(rm) and not any(r_ in reach for r_ in cb.returns())
+        same_actor = same_seq = False
+        for rb, rt in rm:
+            for argi, want in ((1, "actor_id"), (2, "seq")):
+                pva = cb.provenance(rt["args"][argi], through_calls=False)
+                hit = False
+                for cbk, ct in cb.calls():
+                    if (callee(ct) or "").endswith("change::Change::" + want) and ct.get("dst") and ct["dst"]["l"] in pva.locals | {l for l, _ in pva.places}:
+                        o = cb.operand_origin(ct["args"][0])
+                        hit = hit or (o is not None and ch is not None and o[0] == ch[0])
+                if not hit:
+                    hit = any((norm_fn(c) or "").endswith("change::Change::" + want) for c in pva.callees()) and ch is not None and ch[0] in cb.provenance(rt["args"][argi], through_calls=True).locals
+                if argi == 1:
+                    same_actor = same_actor or hit
+                else:
+                    same_seq = same_seq or hit
+        ctx.ob("R3-local", "commit_impl|remove_actor_branch_from targets the committing actor", same_actor, t["sp"],
+               "the actor passed to remove_actor_branch_from is the committed change's actor_id()" if same_actor else
+               "the actor whose queued branch is removed does not derive from the change that is being committed")
+        ctx.ob("R3-local", "commit_impl|remove_actor_branch_from(actor, seq) on every path", okr and same_seq, t["sp"],
+               "queued conflicting branch removed when the sequence number is claimed" if okr and same_seq else "remove_actor_branch_from missing on some path after update_history, or called with a different seq")
     # isolate_actor's seq
     ib = ctx.body("automerge::automerge::Automerge::isolate_actor")
     iso = [(bi, s) for bi, blk in enumerate(ib.blocks) for s in blk["st"] if s["rv"]["k"] == "Agg" and (s["rv"].get("adt") or "").endswith("::Isolation")]
